@@ -62,7 +62,7 @@ Record caller_ok (cta : bool) (s : kstate) (p : kpc) : Prop := {
   co_ov : past_ov p = true -> ov_closed_k s = true /\ instances_k s = 0;
   co_db : returned p = true -> db_open s = false }.
 
-Record KInv (cta del_db fx : bool) (s : kstate) : Prop := {
+Record KInv (cta del_db : bool) (fx : fixes) (s : kstate) : Prop := {
   ki_router : Inv fx (router s);
   ki_sret : forall t, nth_error (stops (router s)) t = Some SReturned -> stop_returned (router s) = true;
   ki_sent : sent s = match start s with StReturned => 1 | _ => 0 end;
@@ -99,10 +99,10 @@ Lemma allowed_stops fx r a r' :
    forall t, nth_error (stops r') t = Some SReturned -> stop_returned r' = true).
 Proof.
   intros Al H. split; [|split].
-  - destruct a; try discriminate; cbn [step] in H; step_cases H; inversion H; subst; cbn; auto using upd_length.
+  - destruct a; try discriminate; cbn [step] in H; unfold give_up in H; step_cases H; inversion H; subst; cbn; auto using upd_length.
   - intros Hr. eapply step_ret_stable; eauto.
   - intros Hs t Ht.
-    destruct a; try discriminate; cbn [step] in H; step_cases H; inversion H; subst; cbn in *; auto;
+    destruct a; try discriminate; cbn [step] in H; unfold give_up in H; step_cases H; inversion H; subst; cbn in *; auto;
       try (apply nth_upd_cases in Ht as [[_ E]|[_ Ht]]; [discriminate|eauto]); eauto.
 Qed.
 
@@ -341,11 +341,14 @@ Proof.
     + destruct (wg (router s)) as [|w] eqn:Ew.
       * exists (KR (AWait t)). eexists. cbn. rewrite Et, Ew. cbn. reflexivity.
       * assert (Hc : closed (router s) = true) by (apply (inv_stops _ _ Ir _ _ Et); auto).
-        assert (NZ : sumf livef (conns (router s)) <> 0).
-        { pose proof (inv_wg _ _ Ir) as W. unfold count_live in W. lia. }
+        assert (NZ : sumf wgf (conns (router s)) <> 0).
+        { pose proof (inv_wg _ _ Ir) as W. unfold count_busy in W. lia. }
         destruct (sumf_zero_ex _ _ NZ) as (c & k & Hk & Hl).
-        assert (L : live (hd k) = true) by (unfold livef in Hl; destruct (live (hd k)); auto; cbn in Hl; congruence).
-        destruct (handler_progress _ _ _ _ Ir Hc Hk L) as (a & r' & Ha & Hs & _).
+        assert (exists a r', handler_action a /\ step fx (router s) a = Some r') as (a & r' & Ha & Hs).
+        { unfold wgf in Hl. destruct (live (hd k)) eqn:L.
+          - destruct (handler_progress _ _ _ _ Ir Hc Hk L) as (a & r' & Ha & Hs & _). eauto.
+          - destruct (neg k) eqn:Ng; [|cbn in Hl; congruence].
+            destruct (neg_progress _ _ _ _ Ir Hc Hk Ng) as (a & r' & Ha & Hs & _). eauto. }
         exists (KR a). eexists. cbn. rewrite (handler_allowed _ Ha), Hs. reflexivity.
     + exists (KStopRet i). eexists. cbn. rewrite Hp, Et. reflexivity.
   - exists (KWs i). eexists. cbn. rewrite Hp. reflexivity.
@@ -433,7 +436,12 @@ Definition hm2 (h : hpc) : nat :=
   | HGot (Some _) => 8 | HDisp _ => 7 | HRecv => 6 | HGot None => 5
   | HExitClose => 4 | HExitDone => 3 | HExitRemove => 2 | HDead => 0 | HNone => 0
   end.
-Definition hmf2 (k : conn) : nat := hm2 (hd k).
+Definition smeas2 (x : spc) : nat :=
+  match x with
+  | IAccept => 22 | IRecvId => 20 | ICheck | OSendId => 18 | IRegister | ORegister => 16
+  | ILaunch | OLaunch => 14 | SetupOk | SetupErr => 0
+  end.
+Definition hmf2 (k : conn) : nat := hm2 (hd k) + smeas2 (setup k) + b2n (neg k).
 Definition rmeas (r : state) : nat := lsum stmeas (stops r) + sumf hmf2 (conns r).
 Definition startmeas (p : startpc) : nat := match p with StRunning => 2 | StWaiting => 1 | _ => 0 end.
 Definition kmeas (s : kstate) : nat := lsum cmeas (callers s) + rmeas (router s) + startmeas (start s).
@@ -441,7 +449,7 @@ Definition kmeas (s : kstate) : nat := lsum cmeas (callers s) + rmeas (router s)
 Lemma allowed_decreases fx r a r' : allowed a = true -> step fx r a = Some r' -> rmeas r' < rmeas r.
 Proof.
   intros Al H. unfold rmeas.
-  destruct a as [ |p|p|c|c|t|t|t|t|t|t|t|t|t|c|c|c|c|c v|c|c|c m|c|c|c|c|c|c|c]; try discriminate; cbn [step] in H.
+  destruct a as [ |p|p|c|c|t|t|t|t|t|t|t|t|t|c|c|c|c|c|c|c v|c|c|c m|c|c|c|c|c|c|c]; try discriminate; cbn [step] in H.
   - destruct (nth_error (stops r) t) as [[| | |]|] eqn:Et; try discriminate. inversion H; subst; cbn.
     pose proof (lsum_upd stmeas _ _ _ SCloseAll Et) as Q. cbn in Q. lia.
   - destruct (nth_error (stops r) t) as [[| | |]|] eqn:Et; try discriminate. inversion H; subst; cbn.
@@ -450,6 +458,47 @@ Proof.
   - destruct (nth_error (stops r) t) as [[| | |]|] eqn:Et; try discriminate.
     destruct (wg r =? 0); [|discriminate]. inversion H; subst; cbn.
     pose proof (lsum_upd stmeas _ _ _ SReturned Et) as Q. cbn in Q. lia.
+  - (* ABegin *)
+    destruct (nth_error (conns r) c) as [k|] eqn:Ek; [|discriminate].
+    destruct (setup k) eqn:Es; try discriminate.
+    destruct (f43 fx); [destruct (closed r)|]; inversion H; subst; cbn;
+      [pose proof (sumf_upd hmf2 _ _ _ (set_setup (close_conn k) SetupErr) Ek) as Q
+      |pose proof (sumf_upd hmf2 _ _ _ (set_neg (set_setup k IRecvId) true) Ek) as Q
+      |pose proof (sumf_upd hmf2 _ _ _ (set_setup k IRecvId) Ek) as Q];
+      unfold hmf2 in Q at 2 4; rewrite Es in Q; cbn in Q; destruct (neg k); cbn in Q; lia.
+  - (* AEnd *)
+    destruct (nth_error (conns r) c) as [k|] eqn:Ek; [|discriminate].
+    destruct (neg k) eqn:En; [|discriminate]. destruct (setup_done (setup k)); [|discriminate]. cbn in H.
+    pose proof (sumf_upd hmf2 _ _ _ (set_neg k false) Ek) as Q. unfold hmf2 in Q at 2 4. rewrite En in Q. cbn in Q.
+    destruct (wg r); inversion H; subst; cbn; lia.
+  - (* ARecvIdFail *)
+    destruct (nth_error (conns r) c) as [k|] eqn:Ek; [|discriminate].
+    destruct (setup k) eqn:Es; try discriminate. inversion H; subst; cbn.
+    pose proof (sumf_upd hmf2 _ _ _ (set_setup (close_conn k) SetupErr) Ek) as Q.
+    unfold hmf2 in Q at 2 4. rewrite Es in Q. cbn in Q. lia.
+  - (* ACheckPeer *)
+    destruct (nth_error (conns r) c) as [k|] eqn:Ek; [|discriminate].
+    destruct (setup k) eqn:Es; try discriminate.
+    destruct v; inversion H; subst; cbn;
+      [pose proof (sumf_upd hmf2 _ _ _ (set_setup k IRegister) Ek) as Q
+      |pose proof (sumf_upd hmf2 _ _ _ (set_setup (close_conn k) SetupErr) Ek) as Q];
+      unfold hmf2 in Q at 2 4; rewrite Es in Q; cbn in Q; lia.
+  - (* ARegister *)
+    destruct (nth_error (conns r) c) as [k|] eqn:Ek; [|discriminate].
+    destruct (setup k) eqn:Es; try discriminate;
+      (destruct (closed r); [unfold give_up in H; destruct (f11 fx)|]; inversion H; subst; cbn;
+       [pose proof (sumf_upd hmf2 _ _ _ (set_setup (close_conn k) SetupErr) Ek) as Q
+       |pose proof (sumf_upd hmf2 _ _ _ (set_setup k SetupErr) Ek) as Q
+       |match goal with |- context[upd _ _ ?k'] => pose proof (sumf_upd hmf2 _ _ _ k' Ek) as Q end];
+       unfold hmf2 in Q at 2 4; rewrite Es in Q; cbn in Q; lia).
+  - (* ALaunch *)
+    destruct (nth_error (conns r) c) as [k|] eqn:Ek; [|discriminate].
+    destruct (setup k) eqn:Es; try discriminate;
+      (destruct (closed r); [unfold give_up in H; destruct (f11 fx)|]; inversion H; subst; cbn;
+       [pose proof (sumf_upd hmf2 _ _ _ (set_setup (close_conn k) SetupErr) Ek) as Q
+       |pose proof (sumf_upd hmf2 _ _ _ (set_setup k SetupErr) Ek) as Q
+       |pose proof (sumf_upd hmf2 _ _ _ (set_hd (set_setup k SetupOk) HRecv) Ek) as Q];
+       unfold hmf2 in Q at 2 4; rewrite Es in Q; cbn in Q; lia).
   - destruct (nth_error (conns r) c) as [k|] eqn:Ek; [|discriminate].
     destruct (hd k) eqn:Eh; try discriminate. destruct (lopen k && popen k); [discriminate|].
     inversion H; subst; cbn.
@@ -575,7 +624,7 @@ Proof.
     + destruct (klock s); auto; discriminate.
     + intros i x Hx. specialize (All _ _ Hx). destruct x; try discriminate; reflexivity.
   - apply (inv_listen _ _ Ir Hc).
-  - intros c k0 Hin Hk. apply (ci_j1 _ _ _ _ _ (inv_conn _ _ Ir _ _ Hk)); auto.
+  - intros c k0 Hin Hk. apply (ci_j1 _ _ _ _ _ _ (inv_conn _ _ Ir _ _ Hk)); auto.
 Qed.
 
 (* with a temporary database (delDb, the test configuration) exactly one call returns nil,
@@ -616,22 +665,22 @@ Definition cta_witness : list kaction :=
    KStopCall_ 0; KR (AHostStop 0); KR (ACloseAll 0); KR (AWait 0); KStopRet 0; KWs 0; KOv 0; KDb 0].
 
 Theorem conc_check_then_act_refuted :
-  exists s, krun true true true (kinit true init 0 2) cta_witness = Some s /\
+  exists s, krun true true (mkFx true true) (kinit true init 0 2) cta_witness = Some s /\
             callers s = [KRet Ok; KSendPc] /\ start s = StReturned /\ sent s = 1 /\
-            forall a, kstep true true true s a = None.
+            forall a, kstep true true (mkFx true true) s a = None.
 Proof.
   eexists. split; [vm_compute; reflexivity|]. repeat split.
   intros a. destruct a as [ |i|i|i|i|ra|i|i|i|i]; try reflexivity;
     try (destruct i as [|[|[|i]]]; reflexivity).
-  destruct ra as [ |p|p|c|c|t|t|t|t|t|t|t|t|t|c|c|c|c|c v|c|c|c m|c|c|c|c|c|c|c]; try reflexivity;
+  destruct ra as [ |p|p|c|c|t|t|t|t|t|t|t|t|t|c|c|c|c|c|c|c v|c|c|c m|c|c|c|c|c|c|c]; try reflexivity;
     try (destruct t as [|[|t]]; reflexivity); try (destruct c as [|c]; reflexivity).
 Qed.
 
 (* the same schedule on the code as it is: the second call cannot read the flag while the
    first holds the lock *)
 Example conc_witness_original :
-  krun false true true (kinit true init 0 2) [KStartArrive; KLockRead 0; KLockRead 1] = None /\
-  exists s, krun false true true (kinit true init 0 2)
+  krun false true (mkFx true true) (kinit true init 0 2) [KStartArrive; KLockRead 0; KLockRead 1] = None /\
+  exists s, krun false true (mkFx true true) (kinit true init 0 2)
                  ([KStartArrive; KLockRead 0; KSend 0; KClear 0; KLockRead 1]) = Some s /\
             callers s = [KStopCall; KStopCall] /\ flag s = false.
 Proof. split; [vm_compute; reflexivity|]. eexists. split; [vm_compute; reflexivity|]. split; reflexivity. Qed.
